@@ -1471,3 +1471,73 @@ def reorder_in_place(ctx, funcs, rule='ORDER'):
                               f"lots is lost - work on `sorted(...)` / a copy instead",
                               key=f"{rule}|{fi.qualname}|reorder|{owner}.{attr}", where=loc(fi, c))
     return n
+
+
+def alternative_groups_read_together(ctx, funcs, rule='RX-GROUPS'):
+    """Some slots of a pattern are captured by one of two groups in
+    alternative branches (`rgenum` in the ordinary branch, or
+    `rgenum_edgecase_rge2` when the range is the single digit 2): exactly one
+    of them is set.  Code that builds a value from `mo['rgenum']` must look at
+    the sibling group too, otherwise the slot is None for every text that
+    takes the other branch."""
+    pairs = set()
+    for r in regex_inventory(ctx):
+        if r['rv'] is None:
+            continue
+        from .. import rx as _rx
+        rv_ = r['rv']
+        excl = ctx.cache(('excl-groups', rv_.pattern, rv_.flags), lambda: _rx.exclusive_group_pairs(rv_.pattern, rv_.flags))
+        for g, h in excl:
+            # the same slot under two names: 'rgenum' / 'rgenum_edgecase_rge2'
+            if h.startswith(g + '_'):
+                pairs.add((g, h))
+    n = 0
+    for fi in funcs:
+        read = {}
+        for x in walk_local(fi.node):
+            if isinstance(x, ast.Subscript) and isinstance(x.slice, ast.Constant) and isinstance(x.slice.value, str) \
+                    and isinstance(x.value, ast.Name):
+                read.setdefault(x.slice.value, x)
+            elif isinstance(x, ast.Call) and isinstance(x.func, ast.Attribute) and x.func.attr == 'group' and x.args \
+                    and isinstance(x.args[0], ast.Constant) and isinstance(x.args[0].value, str):
+                read.setdefault(x.args[0].value, x)
+        consts = {c.value for c in ast.walk(fi.node) if isinstance(c, ast.Constant) and isinstance(c.value, str)}
+        for g, h in sorted(pairs):
+            if g in read:
+                n += 1
+                ctx.check(h in consts, rule, f"{fi.qualname}: reads `{g}` together with its alternative `{h}`",
+                          detail_bad=f"`{norm(read[g])}` is None whenever the pattern matched through the `{h}` branch (a Range of 2: "
+                                     f"'T154N-R2W'), and {fi.qualname} never looks at `{h}`: such a Twp/Rge comes out as "
+                                     f"'154nNonew' - an error TRS and a twprge_error flag for a perfectly written Twp/Rge",
+                          key=f"{rule}|{fi.qualname}|alt-group|{g}", where=loc(fi, read[g]))
+    return n
+
+
+def first_element_speaks_for_all(ctx, funcs, rule='SINK'):
+    """`if isinstance(xs[0], T): target.extend(xs)` checks one element and
+    takes them all: a mixed sequence goes in unverified (or, where extend()
+    verifies, raises for input the per-element path accepts)."""
+    n = 0
+    for fi in funcs:
+        for node in walk_local(fi.node):
+            if not isinstance(node, ast.If):
+                continue
+            firsts = set()
+            for e, txt, pol in literals([(node.test, True)]):
+                if pol and isinstance(e, ast.Call) and dotted(e.func) == 'isinstance' and e.args \
+                        and isinstance(e.args[0], ast.Subscript) and isinstance(e.args[0].slice, ast.Constant) \
+                        and e.args[0].slice.value in (0, -1) and isinstance(e.args[0].value, ast.Name):
+                    firsts.add(e.args[0].value.id)
+            if not firsts:
+                continue
+            for c in [x for b in node.body for x in ast.walk(b)]:
+                if isinstance(c, ast.Call) and isinstance(c.func, ast.Attribute) and c.func.attr == 'extend' and c.args \
+                        and isinstance(c.args[0], ast.Name) and c.args[0].id in firsts:
+                    n += 1
+                    ctx.violation(rule, f"{fi.qualname}: a bulk `{norm(c)[:40]}` is decided by every element",
+                                  f"`if {norm(node.test)[:60]}` looks at one element of `{c.args[0].id}` and `{norm(c)[:40]}` takes all of "
+                                  f"them: a mixed sequence (a Tract followed by a PLSSDesc, a TractList or a nested list) is "
+                                  f"handed over as if every element were like the first - TypeError, or elements of the wrong "
+                                  f"kind inside the container - where the per-element path handles each on its own",
+                                  key=f"{rule}|{fi.qualname}|first-element|{c.args[0].id}", where=loc(fi, c))
+    return n
